@@ -217,7 +217,7 @@ class LMNN(MahalanobisMixin, TransformerMixin):
           # if we did not find a better objective, we retry with an L closer to
           # the starting point, by decreasing the learning rate (making the
           # gradient step smaller)
-          learn_rate /= 2
+          learn_rate = learn_rate / 2
         else:
           # otherwise, if we indeed found a better obj, we get out of the loop
           break
@@ -226,7 +226,7 @@ class LMNN(MahalanobisMixin, TransformerMixin):
       # slightly increase the learning rate
       L = L_next
       G, objective, total_active = G_next, objective_next, total_active_next
-      learn_rate *= 1.01
+      learn_rate = learn_rate * 1.01
 
       if self.verbose:
         print(it, objective, delta_obj, total_active, learn_rate)
